@@ -35,7 +35,7 @@ def all_options():
         yield dict(zip(keys, vals))
 
 
-def sweep(ck, datasets, options, seeds, label, max_traces=4000):
+def sweep(ck, datasets, options, seeds, label, max_traces=4000, num_iters=3):
     tasks = []
     for (n, dims) in datasets:
         for oi, o in enumerate(options):
@@ -44,7 +44,7 @@ def sweep(ck, datasets, options, seeds, label, max_traces=4000):
 
     def task(arg):
         n, dims, s, oi = arg
-        o = dict(options[oi], num_iters=3)
+        o = dict(options[oi], num_iters=num_iters)
         r = chainlib.run_one(n, dims, 1000 * s + oi, o)
         r.pop("results", None)
         r.pop("events", None)
@@ -99,6 +99,11 @@ def run(corrupt=None):
         rnd = random.Random(ck.seed)
         sample = rnd.sample(options, 600)
         spec_traces += sweep(ck, [(3, 1), (3, 2)], sample, seeds, "sample_3_points", max_traces=1200)
+    # longer runs on 4-6 points (tree shapes with grafts below grafts need >= 4 points), seeded sample of option records
+    import random as _r
+    rnd2 = _r.Random(ck.seed + 1)
+    long_opts = [o for o in rnd2.sample(options, 2500) if o["max_time"] != 0][:(900 if thorough else 320)]
+    spec_traces += sweep(ck, [(5, 1), (6, 2)] if thorough else [(5, 1)], long_opts, seeds, "long_runs_5_points", max_traces=(600 if thorough else 200), num_iters=15)
     if corrupt == "trace" and spec_traces:
         ev = spec_traces[0]["events"]
         spec_traces[0]["events"] = [e for e in ev if e["name"] != "clear_caches"]
